@@ -2,7 +2,7 @@
    operators and count aggregations composed arbitrarily; every node's stream
    against the reference evaluation of the node. *)
 From Coq Require Import List ZArith NArith Bool Lia Permutation.
-From Verif Require Import Base Grid Select SelectProofs Shard SelectorProofs Exec Compose StreamWF Agg AggProofs Func Bin BinProofs EndToEnd AggEnd.
+From Verif Require Import Base Grid Select SelectProofs Shard SelectorProofs Exec Compose StreamWF Range MatrixRun Agg AggProofs Func Bin BinProofs EndToEnd AggEnd.
 Import ListNotations.
 Open Scope Z_scope.
 
@@ -14,20 +14,30 @@ Record jparams := mkJP {
 
 Inductive jtree :=
 | JLeaf (ls : list labels) (sers : list (list sample)) (off : Z)
+(* a range function over a matrix selector, fn(sel[range] offset off): [fn] maps the step time and
+   the window's points to the sample's value (None = no sample); the metric name is kept by
+   last_over_time only *)
+| JRange (keep_name : bool) (fn : Z -> list point -> option Z) (range : Z)
+         (ls : list labels) (sers : list (list sample)) (off : Z)
 | JJoin (p : jparams) (l r : jtree)
 (* a per-sample operator: instant functions, unary minus, vector/scalar arithmetic and
    comparisons with a literal (Func.func_step); [drops] = the metric name is dropped *)
 | JMap (drops : bool) (f : Z -> option Z) (t : jtree)
 (* count [by|without] (labels) (t): the reused table of Agg.v *)
-| JCount (conv : nat -> Z) (without : bool) (grouping : list N) (t : jtree).   (* conv: the count as a value *)
+| JCount (conv : nat -> Z) (without : bool) (grouping : list N) (t : jtree)   (* conv: the count as a value *)
+(* an aggregation whose accumulator takes its first value through [init] and every further one
+   through [add] (sum: v, +; max: v, max; min; group: 1, keep): scalarTable with its reused table *)
+| JAgg (init : Z -> Z) (add : Z -> Z -> Z) (without : bool) (grouping : list N) (t : jtree).
 
 (* Series() of a node *)
 Fixpoint jseries (t : jtree) : list labels :=
   match t with
   | JLeaf ls _ _ => ls
+  | JRange keep _ _ ls _ _ => map (fun m => if keep then m else del_name m) ls
   | JJoin p l r => op_series (jp_on p) (jp_ml p) (jp_incl p) (jp_card p) (jp_bool p) (jp_drops p) (jseries l) (jseries r)
   | JMap drops _ t => map (fun m => if drops then del_name m else m) (jseries t)
   | JCount _ without grouping t => groups without grouping (jseries t)
+  | JAgg _ _ without grouping t => groups without grouping (jseries t)
   end.
 
 Definition sv_of (ts : Z) (vec : list (nat * Z)) : stepvec := mkSV ts (map fst vec) (map snd vec).
@@ -46,6 +56,46 @@ Fixpoint count_stream (conv : nat -> Z) (without : bool) (grouping : list N) (sl
       (ts, emit_ids conv (length (groups without grouping slabels)) tbl') :: count_stream conv without grouping slabels tbl' r
   end.
 
+(* ---- the generic accumulator ------------------------------------------------------- *)
+
+Definition oacc := acc (option Z).
+Definition doacc : oacc := mkAcc (option Z) false None.
+
+Definition agg_add (init : Z -> Z) (add : Z -> Z -> Z) (a : option Z) (v : Z) : option Z :=
+  match a with None => Some (init v) | Some x => Some (add x v) end.
+
+(* the value of a group from its members' values, in the order given *)
+Definition agg_fold (init : Z -> Z) (add : Z -> Z -> Z) (vs : list Z) : option Z := fold_left (agg_add init add) vs None.
+
+Definition agg_step (init : Z -> Z) (add : Z -> Z -> Z) (without : bool) (grouping : list N) (slabels : list labels)
+           (tbl : list oacc) (vec : list (nat * Z)) : list oacc :=
+  aggregate Z (option Z) (fun _ => None) (agg_add init add) (inputs without grouping slabels) 0 tbl vec.
+
+Definition agg_emit (ngroups : nat) (tbl : list oacc) : list (nat * Z) :=
+  flat_map (fun g => let a := nth g tbl doacc in
+                     if a_has (option Z) a then match a_st (option Z) a with Some v => [(g, v)] | None => [] end else [])
+           (seq 0 ngroups).
+
+Fixpoint agg_stream (init : Z -> Z) (add : Z -> Z -> Z) (without : bool) (grouping : list N) (slabels : list labels)
+         (tbl : list oacc) (stream : list (Z * list (nat * Z))) : list (Z * list (nat * Z)) :=
+  match stream with
+  | [] => []
+  | (ts, vec) :: r =>
+      let tbl' := agg_step init add without grouping slabels tbl vec in
+      (ts, agg_emit (length (groups without grouping slabels)) tbl') :: agg_stream init add without grouping slabels tbl' r
+  end.
+
+(* the reference: one output per distinct grouping key among the samples, in order of first
+   appearance, with the accumulated value of the samples that have the key *)
+Definition ref_agg (init : Z -> Z) (add : Z -> Z -> Z) (without : bool) (grouping : list N) (smp : list (labels * Z))
+  : list (labels * Z) :=
+  let key := fun mv : labels * Z => group_labels without grouping (fst mv) in
+  flat_map (fun k => match agg_fold init add (map snd (filter (fun mv => if labels_dec (key mv) k then true else false) smp)) with
+                     | Some v => [(k, v)]
+                     | None => []
+                     end)
+           (nodup labels_dec (map key smp)).
+
 Fixpoint zip_vecs (L R : list (Z * list (nat * Z))) : list (Z * list (nat * Z) * list (nat * Z)) :=
   match L, R with
   | (t, a) :: L', (_, b) :: R' => (t, a, b) :: zip_vecs L' R'
@@ -56,6 +106,9 @@ Fixpoint zip_vecs (L R : list (Z * list (nat * Z))) : list (Z * list (nat * Z) *
 Fixpoint jrun (cf : cfg) (w : window) (t : jtree) : list (Z * list (nat * Z)) + step_err :=
   match t with
   | JLeaf _ sers off => inl (map (fun sv => (svT sv, vec_of sv)) (concat (run cf w (PSelect sers off))))
+  | JRange _ fn range _ sers off =>
+      inl (map (fun sv => (svT sv, vec_of sv))
+               (concat (sharded_matrix fn range off (w_step w) (c_shards cf) sers (selector_batches (c_batch cf) w))))
   | JJoin p l r =>
       match jrun cf w l, jrun cf w r with
       | inl L, inl R =>
@@ -77,12 +130,22 @@ Fixpoint jrun (cf : cfg) (w : window) (t : jtree) : list (Z * list (nat * Z)) + 
                                       (repeat dacc (length (groups without grouping (jseries t)))) strm)
       | inr e => inr e
       end
+  | JAgg init add without grouping t =>
+      match jrun cf w t with
+      | inl strm => inl (agg_stream init add without grouping (jseries t)
+                                    (repeat doacc (length (groups without grouping (jseries t)))) strm)
+      | inr e => inr e
+      end
   end.
 
 (* the reference at one timestamp *)
 Fixpoint jref (lb : Z) (t : jtree) (ts : Z) : option (list (labels * Z)) :=
   match t with
   | JLeaf ls sers off => Some (labelled Z ls (vec_of (select_step lb off sers ts)))
+  | JRange keep fn range ls sers off =>
+      (* one sample per series whose window yields a value, under the series' output labels *)
+      Some (present_with_labels (map (fun m => if keep then m else del_name m) ls)
+                                (map (fun ss => range_value fn range off ss ts) sers))
   | JJoin p l r =>
       match jref lb l ts, jref lb r ts with
       | Some L, Some R =>
@@ -106,17 +169,25 @@ Fixpoint jref (lb : Z) (t : jtree) (ts : Z) : option (list (labels * Z)) :=
           Some (map (fun k => (k, conv (count_occ labels_dec present k))) (nodup labels_dec present))
       | None => None
       end
+  | JAgg init add without grouping t =>
+      match jref lb t ts with
+      | Some smp => Some (ref_agg init add without grouping smp)
+      | None => None
+      end
   end.
 
 Fixpoint jok (t : jtree) : Prop :=
   match t with
   | JLeaf ls sers _ => length ls = length sers /\ Forall sorted_ts sers
+  | JRange _ _ range ls sers _ => length ls = length sers /\ Forall sorted_ts sers /\ 0 <= range
   | JJoin p l r =>
       jok l /\ jok r /\
       one_side_unique (jp_on p) (jp_ml p) (one_side_series (jp_card p) (jseries l) (jseries r)) /\
       (is_one_to_one (jp_card p) = true -> jp_incl p = [])
   | JMap _ _ t => jok t
   | JCount _ _ _ t => jok t
+  | JAgg init add _ _ t =>
+      jok t /\ (forall a b, add (init a) b = add (init b) a) /\ (forall x a b, add (add x a) b = add (add x b) a)
   end.
 
 Lemma nth_map_labels (g : labels -> labels) (l : list labels) i : (i < length l)%nat ->
@@ -184,6 +255,133 @@ Lemma zip_vecs_map (fl fr : Z -> list (nat * Z)) (g : list Z) :
   zip_vecs (map (fun ts => (ts, fl ts)) g) (map (fun ts => (ts, fr ts)) g) = map (fun ts => (ts, fl ts, fr ts)) g.
 Proof. induction g as [|t g IH]; simpl; [reflexivity|]. rewrite IH. reflexivity. Qed.
 
+(* ---- the generic aggregation node ----------------------------------------------------- *)
+
+Section AggNode.
+  Variables (init : Z -> Z) (add : Z -> Z -> Z).
+  Hypothesis comm_start : forall a b, add (init a) b = add (init b) a.
+  Hypothesis right_comm : forall x a b, add (add x a) b = add (add x b) a.
+
+  Lemma fold_some_perm l l' : Permutation l l' -> forall a,
+    fold_left (agg_add init add) l (Some a) = fold_left (agg_add init add) l' (Some a).
+  Proof.
+    induction 1 as [|x l l' _ IH|x y l|l l' l'' _ IH1 _ IH2]; intros a; simpl.
+    - reflexivity.
+    - apply IH.
+    - rewrite right_comm. reflexivity.
+    - rewrite IH1. apply IH2.
+  Qed.
+
+  (* the accumulated value does not depend on the order of the members *)
+  Lemma agg_fold_perm l l' : Permutation l l' -> agg_fold init add l = agg_fold init add l'.
+  Proof.
+    unfold agg_fold. induction 1 as [|x l l' Hp _|x y l|l l' l'' _ IH1 _ IH2]; simpl.
+    - reflexivity.
+    - apply fold_some_perm. assumption.
+    - rewrite comm_start. reflexivity.
+    - rewrite IH1. exact IH2.
+  Qed.
+
+  Lemma agg_fold_some v vs : exists r, agg_fold init add (v :: vs) = Some r.
+  Proof.
+    unfold agg_fold. simpl. generalize (init v). induction vs as [|x vs IH]; intros a; simpl; [eexists; reflexivity|apply IH].
+  Qed.
+End AggNode.
+
+Lemma agg_step_length init add without grouping slabels tbl vec :
+  length (agg_step init add without grouping slabels tbl vec) = length tbl.
+Proof.
+  unfold agg_step, aggregate.
+  assert (H : forall vec (t : list oacc),
+             length (fold_left (add_sample Z (option Z) (agg_add init add) (inputs without grouping slabels)) vec t) = length t).
+  { induction vec0 as [|iv vec0 IH]; intros t; simpl; [reflexivity|]. rewrite IH. unfold add_sample. apply upd_nth_length. }
+  rewrite H. apply map_length.
+Qed.
+
+Lemma agg_stream_fresh init add without grouping slabels : forall (stream : list (Z * list (nat * Z))) tbl,
+  length tbl = length (groups without grouping slabels) ->
+  agg_stream init add without grouping slabels tbl stream =
+  map (fun tv => (fst tv, agg_emit (length (groups without grouping slabels))
+                            (agg_step init add without grouping slabels
+                                      (repeat doacc (length (groups without grouping slabels))) (snd tv)))) stream.
+Proof.
+  induction stream as [|[ts vec] r IH]; intros tbl Hl; simpl; [reflexivity|].
+  assert (E : agg_step init add without grouping slabels tbl vec =
+              agg_step init add without grouping slabels (repeat doacc (length (groups without grouping slabels))) vec).
+  { unfold agg_step. apply table_reset_local. rewrite repeat_length. assumption. }
+  rewrite E. f_equal. apply IH. rewrite agg_step_length, repeat_length. reflexivity.
+Qed.
+
+Lemma agg_emit_fst n tbl :
+  map fst (agg_emit n tbl) =
+  filter (fun g => a_has (option Z) (nth g tbl doacc) && match a_st (option Z) (nth g tbl doacc) with Some _ => true | None => false end)
+         (seq 0 n).
+Proof.
+  unfold agg_emit. induction (seq 0 n) as [|g l IH]; simpl; [reflexivity|].
+  rewrite map_app, IH. destruct (a_has (option Z) (nth g tbl doacc)); [|reflexivity].
+  destruct (a_st (option Z) (nth g tbl doacc)); reflexivity.
+Qed.
+
+Lemma agg_emit_in n tbl g v : In (g, v) (agg_emit n tbl) <->
+  (g < n)%nat /\ a_has (option Z) (nth g tbl doacc) = true /\ a_st (option Z) (nth g tbl doacc) = Some v.
+Proof.
+  unfold agg_emit. rewrite in_flat_map. split.
+  - intros [g' [Hg Hin]]. apply in_seq in Hg. cbv zeta in Hin.
+    destruct (a_has (option Z) (nth g' tbl doacc)) eqn:Eh; [|destruct Hin].
+    destruct (a_st (option Z) (nth g' tbl doacc)) as [v'|] eqn:Es; [|destruct Hin].
+    destruct Hin as [Heq|[]]. inversion Heq; subst. repeat split; try assumption. lia.
+  - intros [Hg [Eh Es]]. exists g. split; [apply in_seq; lia|]. cbv zeta. rewrite Eh, Es. left. reflexivity.
+Qed.
+
+Lemma Permutation_filter' {A} (p : A -> bool) (l l' : list A) : Permutation l l' -> Permutation (filter p l) (filter p l').
+Proof.
+  induction 1 as [|x l l' _ IH|x y l|l l' l'' _ IH1 _ IH2]; simpl.
+  - constructor.
+  - destruct (p x); [constructor|]; assumption.
+  - destruct (p x), (p y); try apply Permutation_refl. constructor.
+  - eapply Permutation_trans; eassumption.
+Qed.
+
+Lemma filter_map_comm {A B} (f : A -> B) (p : B -> bool) (l : list A) :
+  filter p (map f l) = map f (filter (fun x => p (f x)) l).
+Proof. induction l as [|a l IH]; simpl; [reflexivity|]. destruct (p (f a)); simpl; rewrite IH; reflexivity. Qed.
+
+(* the members of a group in the engine's step vector carry the values of the samples that have
+   the group's key in the labelled vector *)
+Lemma members_as_filter without grouping (sl : list labels) (vec : list (nat * Z)) gi :
+  (gi < length (groups without grouping sl))%nat ->
+  (forall iv, In iv vec -> (fst iv < length sl)%nat) ->
+  members Z (inputs without grouping sl) gi vec =
+  map snd (filter (fun mv : labels * Z =>
+                     if labels_dec (group_labels without grouping (fst mv)) (nth gi (groups without grouping sl) []) then true else false)
+                  (labelled Z sl vec)).
+Proof.
+  intros Hgi Hr. unfold members, labelled. rewrite filter_map_comm, map_map. simpl.
+  f_equal. apply filter_ext_in. intros iv Hiv. specialize (Hr iv Hiv).
+  assert (Hk : (fst iv < length (keys without grouping sl))%nat) by (unfold keys; rewrite map_length; exact Hr).
+  rewrite <- (nth_keys without grouping sl (fst iv) Hr).
+  destruct (labels_dec (nth (fst iv) (keys without grouping sl) []) (nth gi (groups without grouping sl) [])) as [E|NE].
+  - apply Nat.eqb_eq. apply (member_iff_key without grouping sl); assumption.
+  - apply Nat.eqb_neq. intros E. apply NE. apply (member_iff_key without grouping sl); assumption.
+Qed.
+
+Lemma ref_agg_keys_nodup init add without grouping smp : NoDup (map fst (ref_agg init add without grouping smp)).
+Proof.
+  unfold ref_agg. cbv zeta.
+  assert (H : forall ks : list labels, NoDup ks ->
+            NoDup (map fst (flat_map (fun k => match agg_fold init add (map snd (filter (fun mv : labels * Z =>
+                      if labels_dec (group_labels without grouping (fst mv)) k then true else false) smp)) with
+                     | Some v => [(k, v)] | None => [] end) ks))).
+  { induction ks as [|k ks IH]; intros Hnd; simpl; [constructor|].
+    inversion Hnd as [|? ? Hn Hnd']; subst. rewrite map_app.
+    destruct (agg_fold init add _) as [v|]; simpl; [|apply IH; assumption].
+    constructor; [|apply IH; assumption].
+    intros Hin. apply in_map_iff in Hin. destruct Hin as [[k' v'] [Ek Hin]]. simpl in Ek. subst k'.
+    apply in_flat_map in Hin. destruct Hin as [k'' [Hk'' Hin]].
+    destruct (agg_fold init add _); [|destruct Hin]. destruct Hin as [Heq|[]]. inversion Heq; subst. contradiction. }
+  apply H. apply NoDup_nodup.
+Qed.
+
 Definition good_vec (n : nat) (vec : list (nat * Z)) : Prop :=
   (forall iv, In iv vec -> (fst iv < n)%nat) /\ NoDup (map fst vec).
 
@@ -199,6 +397,7 @@ Qed.
 Fixpoint jdenote (lb : Z) (t : jtree) (ts : Z) : list (nat * Z) :=
   match t with
   | JLeaf _ sers off => vec_of (select_step lb off sers ts)
+  | JRange _ fn range _ sers off => vec_of (range_step fn range off sers ts)
   | JJoin p l r =>
       pure_step Z (jp_op p) (jp_b2v p) (jp_card p) (jp_bool p)
                 (op_hidx (jp_on p) (jp_ml p) (jp_card p) (jseries l) (jseries r))
@@ -210,6 +409,10 @@ Fixpoint jdenote (lb : Z) (t : jtree) (ts : Z) : list (nat * Z) :=
                (count_step without grouping (jseries t1)
                            (repeat dacc (length (groups without grouping (jseries t1))))
                            (sv_of ts (jdenote lb t1 ts)))
+  | JAgg init add without grouping t1 =>
+      agg_emit (length (groups without grouping (jseries t1)))
+               (agg_step init add without grouping (jseries t1)
+                         (repeat doacc (length (groups without grouping (jseries t1)))) (jdenote lb t1 ts))
   end.
 
 (* C01 for trees of binary operators over selectors, e.g. (a + on(x) b) * ignoring(y) group_left c:
@@ -225,13 +428,22 @@ Theorem jtree_matches_reference cf w :
                forall R, jref (c_lookback cf) t ts = Some R ->
                          Permutation (labelled Z (jseries t) (jdenote (c_lookback cf) t ts)) R.
 Proof.
-  intros HN HB Hlb Hw Hstart. induction t as [ls sers off|p l IHl r IHr|drops f t IH|conv without grouping t IH]; intros Hok.
+  intros HN HB Hlb Hw Hstart. induction t as [ls sers off|keep fn range ls sers off|p l IHl r IHr|drops f t IH|conv without grouping t IH|init add without grouping t IH]; intros Hok.
   - destruct Hok as [Hlen Hs]. cbn [jdenote]. split.
     + cbn [jrun]. rewrite (run_covers_grid cf w (PSelect sers off) HN HB Hlb Hw Hs). simpl denote. rewrite map_map.
       f_equal. apply map_ext. intros ts. rewrite select_step_T. reflexivity.
     + intros ts. split.
       * simpl. rewrite Hlen. apply (vec_of_good _ _ (select_step_wf (c_lookback cf) off sers ts)).
       * intros R HR. simpl in HR. inversion HR; subst. apply Permutation_refl.
+  - destruct Hok as [Hlen [Hs Hr]]. cbn [jdenote]. split.
+    + cbn [jrun]. rewrite (sharded_matrix_spec fn range off (c_shards cf) (c_batch cf) w sers HN HB Hw Hr Hs).
+      rewrite <- concat_map, (selector_batches_cover_grid (c_batch cf) w HB Hw), map_map.
+      f_equal. apply map_ext. intros ts. rewrite range_step_T. reflexivity.
+    + intros ts. split.
+      * simpl. rewrite map_length, Hlen. apply (vec_of_good _ _ (range_step_wf fn range off sers ts)).
+      * intros R HR. simpl in HR. inversion HR; subst. clear HR.
+        unfold labelled, vec_of, range_step. simpl jseries.
+        rewrite labelled_stepvec by (rewrite !map_length; exact Hlen). apply Permutation_refl.
   - destruct Hok as [Hokl [Hokr [HA Hincl]]].
     destruct (IHl Hokl) as [El Pl]. destruct (IHr Hokr) as [Er Pr]. cbn [jdenote].
     set (fl := jdenote (c_lookback cf) l) in *. set (fr := jdenote (c_lookback cf) r) in *.
@@ -365,6 +577,83 @@ Proof.
                  rewrite Hslot by exact Hg.
                  destruct (members_of without grouping sl gi ids) as [|i0 ms] eqn:Em; [destruct Hmem|].
                  simpl. left. reflexivity.
+  - destruct Hok as [Hok [Hcs Hrc]].
+    destruct (IH Hok) as [Eg Pg]. cbn [jdenote]. set (g := jdenote (c_lookback cf) t) in *.
+    set (sl := jseries t) in *. set (ng := length (groups without grouping sl)).
+    set (fresh := repeat doacc ng). split.
+    + cbn [jrun]. rewrite Eg. fold sl. rewrite agg_stream_fresh by apply repeat_length. rewrite map_map. reflexivity.
+    + intros ts. destruct (Pg ts) as [[G1 G2] PG].
+      assert (Hslot : forall gi, (gi < ng)%nat ->
+                nth gi (agg_step init add without grouping sl fresh (g ts)) doacc =
+                match members Z (inputs without grouping sl) gi (g ts) with
+                | [] => mkAcc (option Z) false None
+                | ms => mkAcc (option Z) true (agg_fold init add ms)
+                end).
+      { intros gi Hgi. unfold agg_step.
+        apply (aggregate_group_value Z (option Z) (fun _ => None) (agg_add init add)).
+        unfold fresh. rewrite repeat_length. exact Hgi. }
+      assert (Hrange : forall iv, In iv (agg_emit ng (agg_step init add without grouping sl fresh (g ts))) -> (fst iv < ng)%nat).
+      { intros [gi v] Hiv. apply agg_emit_in in Hiv. simpl. tauto. }
+      split.
+      * split.
+        -- intros iv Hiv. simpl jseries. fold sl. apply Hrange. exact Hiv.
+        -- rewrite agg_emit_fst. apply NoDup_filter. apply seq_NoDup.
+      * intros R HR. simpl in HR. destruct (jref (c_lookback cf) t ts) as [S0|] eqn:ES; [|discriminate].
+        inversion HR; subst R. clear HR. specialize (PG S0 eq_refl).
+        destruct (groups_spec without grouping sl) as [Hgnd [_ Hgn]].
+        (* the members of a group and the reference's samples with the group's key *)
+        assert (Hmem : forall gi, (gi < ng)%nat ->
+                  Permutation (members Z (inputs without grouping sl) gi (g ts))
+                              (map snd (filter (fun mv : labels * Z =>
+                                 if labels_dec (group_labels without grouping (fst mv)) (nth gi (groups without grouping sl) []) then true else false) S0))).
+        { intros gi Hgi. rewrite (members_as_filter without grouping sl (g ts) gi Hgi G1).
+          apply Permutation_map. apply Permutation_filter'. exact PG. }
+        apply NoDup_Permutation.
+        -- apply labelled_nodup.
+           ++ simpl jseries. fold sl. exact Hgnd.
+           ++ rewrite agg_emit_fst. apply NoDup_filter. apply seq_NoDup.
+           ++ intros iv Hiv. simpl jseries. fold sl. apply Hrange. exact Hiv.
+        -- apply (NoDup_map_inv fst). apply ref_agg_keys_nodup.
+        -- intros [m v]. unfold labelled. rewrite in_map_iff. split.
+           ++ intros [[gi v'] [Heq Hin]]. simpl in Heq. inversion Heq; subst m v'. clear Heq.
+              apply agg_emit_in in Hin. destruct Hin as [Hgi [Hhas Hst]].
+              rewrite (Hslot gi Hgi) in Hhas, Hst.
+              destruct (members Z (inputs without grouping sl) gi (g ts)) as [|v0 ms] eqn:Em; [discriminate|].
+              cbn [a_st a_has] in Hst. simpl jseries. fold sl.
+              pose proof (agg_fold_perm init add Hcs Hrc _ _ (Hmem gi Hgi)) as Ef. rewrite Em, Hst in Ef.
+              set (k := nth gi (groups without grouping sl) []) in *.
+              unfold ref_agg. cbv zeta. apply in_flat_map. exists k. split.
+              ** apply nodup_In.
+                 assert (Hv0 : In v0 (map snd (filter (fun mv : labels * Z =>
+                                 if labels_dec (group_labels without grouping (fst mv)) k then true else false) S0))).
+                 { apply (Permutation_in _ (Hmem gi Hgi)). rewrite Em. left. reflexivity. }
+                 apply in_map_iff in Hv0. destruct Hv0 as [mv [_ Hmv]]. apply filter_In in Hmv. destruct Hmv as [Hmv Hkey].
+                 destruct (labels_dec (group_labels without grouping (fst mv)) k) as [Ek|]; [|discriminate].
+                 apply in_map_iff. exists mv. split; assumption.
+              ** rewrite <- Ef. left. reflexivity.
+           ++ intros Hin. unfold ref_agg in Hin. cbv zeta in Hin. apply in_flat_map in Hin. destruct Hin as [k [Hk Hin]].
+              apply nodup_In in Hk. apply in_map_iff in Hk. destruct Hk as [mv [Ek Hmv]].
+              apply (Permutation_in _ (Permutation_sym PG)) in Hmv. unfold labelled in Hmv. apply in_map_iff in Hmv.
+              destruct Hmv as [iv [Eiv Hiv]].
+              pose proof (G1 iv Hiv) as Hil.
+              assert (Hilk : (fst iv < length (keys without grouping sl))%nat) by (unfold keys; rewrite map_length; exact Hil).
+              specialize (Hgn (fst iv) Hilk).
+              set (gi := nth (fst iv) (inputs without grouping sl) 0%nat) in *.
+              assert (Hg : (gi < ng)%nat).
+              { unfold ng. apply nth_error_Some. rewrite Hgn. apply nth_error_Some. assumption. }
+              assert (Hkey : nth gi (groups without grouping sl) [] = k).
+              { rewrite <- Ek, <- Eiv. simpl. rewrite <- (nth_keys without grouping sl (fst iv) Hil). symmetry.
+                apply (member_iff_key without grouping sl); [exact Hg|exact Hilk|reflexivity]. }
+              assert (Hne : In (snd iv) (members Z (inputs without grouping sl) gi (g ts))).
+              { unfold members. apply in_map. apply filter_In. split; [assumption|apply Nat.eqb_refl]. }
+              rewrite <- Hkey in Hin.
+              rewrite <- (agg_fold_perm init add Hcs Hrc _ _ (Hmem gi Hg)) in Hin.
+              destruct (agg_fold init add (members Z (inputs without grouping sl) gi (g ts))) as [r|] eqn:Ef; [|destruct Hin].
+              destruct Hin as [Heq|[]]. inversion Heq; subst m v. clear Heq.
+              exists (gi, r). split; [simpl; simpl jseries; fold sl; reflexivity|].
+              apply agg_emit_in. split; [exact Hg|]. rewrite (Hslot gi Hg).
+              destruct (members Z (inputs without grouping sl) gi (g ts)) as [|v0 ms]; [destruct Hne|].
+              simpl. split; [reflexivity|exact Ef].
 Qed.
 
 (* C11 for operator trees: the stream does not depend on the shard count or the batch size *)
